@@ -58,7 +58,7 @@ def arrangements(n):
                 yield key
 
 
-def build_ops(n, chains, rings=()):
+def build_ops(n, chains, rings=(), edits=()):
     ops = [['new', 0] for _ in range(n)]
     for c in chains:
         for a, b in zip(c, c[1:]):
@@ -66,7 +66,52 @@ def build_ops(n, chains, rings=()):
     for r in rings:
         for a, b in zip(r, r[1:] + r[:1]):
             ops.append(['relate', a, b, 'R2', 'precedes'])
+    for e in edits:            # the chains are EDITED after they were built: unrelate / relate / delete
+        if e[0] == 'delete':
+            ops.append(['delete', e[1]])
+        else:
+            ops.append([e[0], e[1], e[2], 'R2', 'precedes'])
     return ops
+
+
+def structure_after(case):
+    """(chains, rings, live members) after the edits, derived from the recipe alone"""
+    nxt = {}
+    for c in case['chains']:
+        for a, b in zip(c, c[1:]):
+            nxt[a] = b
+    for r in case['rings']:
+        for a, b in zip(r, r[1:] + r[:1]):
+            nxt[a] = b
+    live = set(range(case['n']))
+    for e in case.get('edits', []):
+        if e[0] == 'unrelate':
+            if nxt.get(e[1]) == e[2]:
+                del nxt[e[1]]
+        elif e[0] == 'relate':
+            nxt[e[1]] = e[2]
+        elif e[0] == 'delete':
+            live.discard(e[1])
+            nxt.pop(e[1], None)
+            for k in [k for k, v in nxt.items() if v == e[1]]:
+                del nxt[k]
+    prev = dict((v, k) for k, v in nxt.items())
+    chains, rings, seen = [], [], set()
+    for x in sorted(live):
+        if x not in prev:
+            c = [x]
+            while c[-1] in nxt:
+                c.append(nxt[c[-1]])
+            chains.append(c)
+            seen.update(c)
+    for x in sorted(live):
+        if x not in seen:
+            r = [x]
+            while nxt[r[-1]] != x:
+                r.append(nxt[r[-1]])
+            rings.append(r)
+            seen.update(r)
+    return chains, rings, live
 
 
 def generate(ctx):
@@ -123,6 +168,47 @@ def generate(ctx):
         sub = r.sample(order, r.randint(1, n))
         yield {'n': n, 'chains': chains, 'rings': [ring], 'fam': 'mix',
                'sorts': [[order, 'R2', 'precedes'], [order, 'R2', 'succeeds'], [sub, 'R2', r.choice(['precedes', 'succeeds'])]]}
+    # chains and rings EDITED before sorting: unrelate in the middle, move a member, delete a member, open a ring
+    for i in range(ctx.pick(1500, 20000)):
+        r = rng.fork('edit', i)
+        n = r.randint(2, 7)
+        members = list(range(n))
+        r.shuffle(members)
+        chains, cur = [], []
+        for x in members:
+            cur.append(x)
+            if r.random() < 0.35:
+                chains.append(cur)
+                cur = []
+        if cur:
+            chains.append(cur)
+        rings = []
+        if len(chains) > 1 and r.random() < 0.3:
+            rings = [chains.pop()]
+        case = {'n': n, 'chains': chains, 'rings': rings, 'edits': [], 'fam': 'edited'}
+        for _ in range(r.randint(1, 3)):
+            cs, rs, live = structure_after(case)
+            links = [(a, b) for c in cs for a, b in zip(c, c[1:])] + [(a, b) for rg in rs for a, b in zip(rg, rg[1:] + rg[:1])]
+            kind = r.choice(['unrelate', 'unrelate', 'delete', 'move'])
+            if kind == 'unrelate' and links:
+                a, b = r.choice(links)
+                case['edits'].append(['unrelate', a, b])
+            elif kind == 'delete' and len(live) > 1:
+                case['edits'].append(['delete', r.choice(sorted(live))])
+            elif kind == 'move' and links:
+                a, b = r.choice(links)
+                case['edits'].append(['unrelate', a, b])
+                cs2, rs2, live2 = structure_after(case)
+                tails = [c[-1] for c in cs2 if c[-1] != b and b not in c]
+                heads_of_b = [c for c in cs2 if c[0] == b]
+                if tails and heads_of_b:
+                    case['edits'].append(['relate', r.choice(tails), b])
+        cs, rs, live = structure_after(case)
+        order = sorted(live)
+        r.shuffle(order)
+        case['sorts'] = [[sorted(live), 'R2', 'precedes'], [sorted(live), 'R2', 'succeeds'],
+                         [order, 'R2', 'precedes'], [order, 'R2', 'succeeds']]
+        yield case
     for i in range(ctx.pick(12, 150)):
         r = rng.fork('big', i)
         n = r.randint(50, ctx.pick(200, 500))
@@ -144,10 +230,10 @@ def generate(ctx):
 
 def expected(case, order, phrase):
     """the statement, evaluated from the recipe; None = the statement does not determine the result"""
-    chains, rings = case['chains'], case['rings']
+    chains, rings, live = structure_after(case)
     if not order:
         return []
-    whole = sorted(order) == list(range(case['n'])) and len(set(order)) == len(order)
+    whole = sorted(order) == sorted(live) and len(set(order)) == len(order)
     if not whole:
         return None
     if rings and chains:
@@ -171,7 +257,7 @@ def expected(case, order, phrase):
 
 def run_impl(case):
     model = mc.Model(SCHEMA)
-    for op in build_ops(case['n'], case['chains'], case['rings']):
+    for op in build_ops(case['n'], case['chains'], case['rings'], case.get('edits', ())):
         out = model.apply(op)
         if str(out) != 'ok':
             raise RuntimeError('recipe op rejected: %s %s' % (op, out))
@@ -199,7 +285,7 @@ def run_impl(case):
                           % (order, ph, res, case['chains'], case['rings'])})
     # a non-QuerySet is rejected with the metamodel exception
     try:
-        _x.sort_reflexive([model.insts[i] for i in range(case['n'])], 'R2', 'precedes')
+        _x.sort_reflexive([model.insts[i] for i in sorted(structure_after(case)[2])], 'R2', 'precedes')
         fails.append({'sig': 'list-accepted', 'what': 'sort_reflexive accepted a plain list'})
     except _x.MetaException:
         pass
@@ -210,7 +296,7 @@ def run_impl(case):
 
 
 def model_line(case):
-    ops = build_ops(case['n'], case['chains'], case['rings'])
+    ops = build_ops(case['n'], case['chains'], case['rings'], case.get('edits', ()))
     return dumps([Sym('sortrefl'), mc.schema_sexp(SCHEMA), [Sym('ops')] + [mc.op_sexp(o) for o in ops],
                   [Sym('sorts')] + [[[Sym('set')] + list(o), r, p] for (o, r, p) in case['sorts']]])
 
